@@ -7,6 +7,7 @@ CONSTANTS
   Rs = {0, 1}
   Sums = {0, 1, 2, 5}
   MaxSum = 0
+  FailSum = 1
   MaxFail = 2
   Sim = FALSE
 INVARIANTS Member ImplMatchesAbstract LocalIndependent NoRepeat
